@@ -20,11 +20,32 @@ use regex::Regex;
 #[derive(Clone, Debug)]
 pub struct HgignoreFilter {
     pub regex: Regex,
+    /// For a regexp pattern: the repository root with a trailing separator. The pattern is searched for in
+    /// the rest of a path below that root, so that `^` means the repository root wherever it stands in
+    /// the pattern (`(^|/)build$`).
+    pub relative_to: Option<String>,
 }
 
 impl HgignoreFilter {
     fn new(regex: Regex) -> HgignoreFilter {
-        HgignoreFilter { regex }
+        HgignoreFilter { regex, relative_to: None }
+    }
+
+    fn relative(regex: Regex, root: &Path) -> HgignoreFilter {
+        let root = root.to_string_lossy();
+        HgignoreFilter {
+            regex,
+            relative_to: Some(format!("{}/", root.trim_end_matches('/'))),
+        }
+    }
+
+    fn is_match(&self, path: &str) -> bool {
+        match self.relative_to {
+            Some(ref root) => path
+                .strip_prefix(root.as_str())
+                .is_some_and(|relative| self.regex.is_match(relative)),
+            None => self.regex.is_match(path),
+        }
     }
 }
 
@@ -73,7 +94,7 @@ pub fn matches_hgignore_filter(hgignore_filters: &Vec<HgignoreFilter>, file_name
     let mut candidate = file_name;
     loop {
         for hgignore_filter in hgignore_filters {
-            if hgignore_filter.regex.is_match(candidate) {
+            if hgignore_filter.is_match(candidate) {
                 matched = true;
             }
         }
@@ -175,6 +196,13 @@ fn convert_hgignore_pattern(
             Ok(regex) => Ok(HgignoreFilter::new(regex)),
             _ => Err("Error creating regex while parsing .hgignore glob: ".to_string() + pattern),
         },
+        #[cfg(not(windows))]
+        Syntax::Regexp => match Regex::new(pattern) {
+            // hgignore(5): a regexp is searched for in the path relative to the repository root
+            Ok(regex) => Ok(HgignoreFilter::relative(regex, file_path)),
+            _ => Err("Error creating regex while parsing .hgignore regexp: ".to_string() + pattern),
+        },
+        #[cfg(windows)]
         Syntax::Regexp => match convert_hgignore_regexp(pattern, file_path) {
             Ok(regex) => Ok(HgignoreFilter::new(regex)),
             _ => Err("Error creating regex while parsing .hgignore regexp: ".to_string() + pattern),
@@ -255,20 +283,8 @@ fn convert_hgignore_glob(glob: &str, file_path: &Path) -> Result<Regex, Error> {
     }
 }
 
+#[cfg(windows)]
 fn convert_hgignore_regexp(regexp: &str, file_path: &Path) -> Result<Regex, Error> {
-    #[cfg(not(windows))]
-    {
-        // hgignore(5): a regexp is matched against the path relative to the repository root
-        // and is only rooted there when it starts with ^
-        let root = regex::escape(&file_path.to_string_lossy());
-        let pattern = match regexp.strip_prefix('^') {
-            Some(rooted) => format!("^{}/{}", root, rooted),
-            None => format!("^{}/.*{}", root, regexp),
-        };
-
-        Regex::new(&pattern)
-    }
-
     #[cfg(windows)]
     {
         let mut pattern = file_path.to_string_lossy().to_string();
